@@ -17,3 +17,7 @@ require (
 	golang.org/x/sync v0.10.0
 	golang.org/x/sys v0.29.0
 )
+
+require github.com/blevesearch/go-faiss v1.0.25
+
+replace github.com/blevesearch/go-faiss => ../fakes/go-faiss
